@@ -129,3 +129,8 @@ mut("c14-keep-locals", "C14", "KEEP", "hclsyntax/token.go",
 mut("c14-keep-demorgan", "C14", "KEEP", "hclsyntax/token.go",
     "\t\tif (len(seq) == 1 && seq[0] == '\\n') || (len(seq) == 2 && seq[0] == '\\r' && seq[1] == '\\n') {\n\t\t\tend.Line++\n\t\t\tend.Column = 1\n\t\t} else {\n\t\t\tend.Column++\n\t\t}",
     "\t\tisLF := len(seq) == 1 && seq[0] == '\\n'\n\t\tisCRLF := len(seq) == 2 && seq[0] == '\\r' && seq[1] == '\\n'\n\t\tif !isLF && !isCRLF {\n\t\t\tend.Column++\n\t\t} else {\n\t\t\tend.Line++\n\t\t\tend.Column = 1\n\t\t}", "")
+
+# ---- C07 / C18 dyn.filter polarity ------------------------------------------------------------------
+mut("c07-filter-inverted", "C07", "MUST", "ext/dynblock/variables.go",
+    "\t\t\t\t\tours := traversal.RootName() == iteratorName\n\t\t\t\t\t_, inherited := blockIt.Inherited[traversal.RootName()]\n\n\t\t\t\t\tif !ours && !inherited {",
+    "\t\t\t\t\tours := traversal.RootName() == iteratorName\n\t\t\t\t\t_, inherited := blockIt.Inherited[traversal.RootName()]\n\n\t\t\t\t\tif ours || inherited {", "dyn.filter")
